@@ -1018,4 +1018,11 @@ def _constant_cases(ctx):
     return rule_r2(ctx)
 
 
-RULES = [("C04-R2", _constant_cases), ("C03-R1", rule_r1), ("C03-R2", rule_r2), ("C03-R3", rule_r3), ("C03-R4", rule_r4), ("C03-R4b", rule_r4b), ("C03-R5", rule_r5), ("C03-R6", rule_r6), ("C03-R7", rule_r7), ("C11-R6", lambda_skeleton_rule), ("C04-R3", _fstring_structure)]
+def _bytes_cases(ctx):
+    """Bytes constants are leaves of the round trip too (shared rule C04-R8)."""
+    from .c04 import rule_r8
+
+    return rule_r8(ctx)
+
+
+RULES = [("C04-R2", _constant_cases), ("C04-R8", _bytes_cases), ("C03-R1", rule_r1), ("C03-R2", rule_r2), ("C03-R3", rule_r3), ("C03-R4", rule_r4), ("C03-R4b", rule_r4b), ("C03-R5", rule_r5), ("C03-R6", rule_r6), ("C03-R7", rule_r7), ("C11-R6", lambda_skeleton_rule), ("C04-R3", _fstring_structure)]
